@@ -659,7 +659,7 @@ func main() {
 	log.Root().SetHandler(log.DiscardHandler())
 	// pools are tiny and short-lived: collect by heap size, not by growth ratio
 	debug.SetGCPercent(800)
-	debug.SetMemoryLimit(3 << 30)
+	debug.SetMemoryLimit(2500 << 20)
 	initUniverse()
 	initOps()
 	initAsyncOps()
